@@ -750,9 +750,11 @@ class CondModel(CM):
                         return True
                     held = st.ghost.get('held', [])
                     saved = list(held)
-                    held.clear()            # wait() releases the lock
-                    it_.do_yield('cond.wait')
-                    held.extend(saved)
+                    held.clear()            # wait() releases the lock ...
+                    try:
+                        it_.do_yield('cond.wait')
+                    finally:
+                        held.extend(saved)  # ... and re-acquires it before returning or raising (also when cancelled)
                     after = it_.eval_merged(lambda: it_.call_value(pred, CallArgs()), 'bool')
                     st.assume(as_z3(as_bool_term(after)))
                     st.emit('woken', cond=self.name, snap=st.snapshot())
